@@ -276,7 +276,7 @@ impl TwoFloat {
             -1 => self.recip(),
             _ => {
                 let mut result = Self::from(1.0);
-                let mut n_pos = n.abs();
+                let mut n_pos = n.unsigned_abs();
                 let mut value = self;
                 while n_pos > 0 {
                     if (n_pos & 1) != 0 {
